@@ -230,3 +230,282 @@ package tree
 //@   modifies var alog
 //@   loop 0 invariant idx() >= 0 && idx() <= len(p.tokens.tree) && exStep(elems(p.tokens.tree), idx()) && p.tokens == old(p.tokens) && _buffer == p.buffer && p.buffer == old(p.buffer)
 //@   loop 0 invariant alog == ACT(elems(p.tokens.tree), idx(), old(alog)) && text == TXTC(elems(p.tokens.tree), idx())
+
+// ---------------------------------------------------------------------------------------------
+// C05: syntax tree reconstruction (tokens.AST) and printing.
+//
+// "For every successful parse, the tree returned by AST() (and printed by PrintSyntaxTree/WriteSyntaxTree/
+// SprintSyntaxTree) contains exactly the non-empty tokens, each node's children are exactly the tokens nested directly
+// inside it in input order, and each printed node shows its rule name with the exact input substring it spans."
+//
+// Precondition wellNested(ts): ts is the post-order list of a well-nested derivation: begin <= end for every token, and for
+// non-empty tokens i < j either i lies entirely before j (end_i <= begin_j) or inside j. (Zero-width tokens are
+// unconstrained; a parent and its child may span the same text.) It is a precondition here: that Init.parse produces such a
+// list (its postcondition says tokens == APP(rule, 0, ...)) is an induction over the grammar semantics that is not done.
+//
+// What the clauses say (all proved for token lists of any length; n, m range over the created nodes astNodes):
+//   K1, K2   nodes <-> non-empty tokens, one to one: every non-empty token j has the node astN[j], every node carries the
+//            token astI[n] (n.token == ts[astI[n]]), astN and astI are inverse, no node for a zero-width token, all nodes fresh
+//   K6       a child's token comes before its parent's token in the list and its span lies inside the parent's span
+//   K7-K10   astP/astL describe exactly the up/next links: n.up is the child without left sibling, m.next is the child whose
+//            left sibling is m and it has the same parent; conversely a child without left sibling is its parent's up, a child
+//            with left sibling l is l.next. Hence every node has exactly one incoming link (a forest), and siblings are in
+//            input order: l.end <= n.begin, so begin offsets strictly increase along next (K8 with K2).
+//   K11      the parent is the FIRST later non-empty token that contains the child (no token between them does); a node
+//            without parent is contained in no later token. With wellNested this is "nested directly inside": the last
+//            ensures clause of AST states the converse (if j is the first later token containing i then astP[astN[i]] == astN[j]).
+//   L1-L4    the nodes of the subtree of n are the nodes with token index in [astLo[n], astI[n]] (intervals of consecutive
+//            children are adjacent, the parent closes the interval): used to show that printing visits every node once.
+//   root     result == nil iff there is no non-empty token; otherwise result is the last node without parent, every other
+//            node m has astI[m] <= astI[result] and is in the subtree interval of result or lies entirely before result's span
+//            (m.end <= result.begin): when the last non-empty token spans all tokens - the start rule's token of a successful
+//            parse - every node is in the subtree of result.
+// Reachability is not expressible in the first-order contract language; "the tree contains exactly the nodes" is stated
+// through the ghost functions above (unique parent/left sibling = unique incoming link, subtree = index interval), and the
+// traversal proof of printFunc shows inside the logic that following up/next from the root visits exactly the nodes of its
+// subtree interval, each once.
+//
+// Ghost state of AST (unit-level ghost variables, written only by the ghost statements below):
+//   astNodes  set of the node objects created by the call
+//   astN      token index -> node created for it          astI   node -> index of its token
+//   astP      node -> parent node (nil: none (yet), the node is on the stack / is a root)
+//   astL      node -> left sibling in its parent's child list (nil: first child / no parent)
+//   astEl     node on the stack -> its stack element
+//   astLo     node -> smallest token index of a node in its subtree
+//   astRoot   the node returned (nil if there is none)
+
+//@ ghostvar astNodes set
+//@ ghostvar astN map
+//@ ghostvar astI map
+//@ ghostvar astP map
+//@ ghostvar astL map
+//@ ghostvar astEl map
+//@ ghostvar astLo map
+//@ ghostvar astRoot int
+
+//@ pred nonEmpty(x token) = x.begin != x.end
+//@ pred inside(x token, y token) = x.begin >= y.begin && x.end <= y.end
+//@ pred par(n *node) = at(astP, n, node)
+//@ pred lft(n *node) = at(astL, n, node)
+//@ pred ix(n *node) = at(astI, n)
+//@ pred el(n *node) = at(astEl, n, element)
+//@ pred lo(n *node) = at(astLo, n)
+//@ pred onS(n *node, c *node) = in(n, astNodes) && par(n) == nil && n != c
+
+//@ pred sameNode() = forall(r * node, imp(0 < r && r < old(alloc), r.up == old(r.up))) && forall(r * node, imp(0 < r && r < old(alloc), r.next == old(r.next)))
+//@      && forall(r * node, imp(0 < r && r < old(alloc), r.token == old(r.token)))
+//@ pred sameElem() = forall(r * element, imp(0 < r && r < old(alloc), r.node == old(r.node))) && forall(r * element, imp(0 < r && r < old(alloc), r.down == old(r.down)))
+
+// Invariants of AST. ts = the token slice, k = number of tokens processed, c = the node under construction (nil between
+// tokens): it is registered but not on the stack. onS(n, c): n is on the stack.
+//@ pred K1(ts []token, k int) = forall(j, imp(0 <= j && j < k && nonEmpty(ts[j]), in(at(astN, j), astNodes) && at(astI, at(astN, j)) == j))
+//@ pred K2(ts []token, k int) = forall(n * node, imp(in(n, astNodes), fresh(n) && 0 <= ix(n) && ix(n) < k && at(astN, ix(n)) == n && n.token == ts[ix(n)] && n.begin < n.end))
+//@ pred K3(c *node) = imp(stack != nil, onS(stack.node, c) && el(stack.node) == stack)
+//@      && forall(m * node, imp(onS(m, c) && stack != nil, ix(m) <= ix(stack.node)))
+//@      && forall(m * node, imp(stack == nil, !onS(m, c)))
+//@ pred K4a(c *node) = forall(n * node, imp(onS(n, c), fresh(el(n)) && el(n).node == n && lft(n) == nil && n.next == nil))
+//@ pred K4b(c *node) = forall(n * node, m * node, trig(el(n).down, ix(m)), imp(onS(n, c) && onS(m, c) && el(n).down == nil, ix(m) >= ix(n)))
+//@ pred K4c(c *node) = forall(n * node, trig(el(n).down), imp(onS(n, c) && el(n).down != nil, onS(el(n).down.node, c) && el(el(n).down.node) == el(n).down && ix(el(n).down.node) < ix(n)))
+//@ pred K4d(c *node) = forall(n * node, m * node, trig(el(n).down, ix(m)), imp(onS(n, c) && onS(m, c) && el(n).down != nil, ix(m) <= ix(el(n).down.node) || ix(m) >= ix(n)))
+//@ pred K5(c *node) = forall(m * node, n * node, imp(onS(m, c) && onS(n, c) && ix(m) < ix(n), m.end <= n.begin))
+//@ pred K6() = forall(n * node, trig(par(n)), imp(in(n, astNodes) && par(n) != nil, in(par(n), astNodes) && ix(n) < ix(par(n)) && par(n).begin <= n.begin && n.end <= par(n).end))
+//@ pred K7() = forall(n * node, imp(in(n, astNodes) && par(n) != nil && lft(n) == nil, par(n).up == n))
+//@ pred K8() = forall(n * node, trig(lft(n)), imp(in(n, astNodes) && par(n) != nil && lft(n) != nil, in(lft(n), astNodes) && par(lft(n)) == par(n) && lft(n).next == n && lft(n).end <= n.begin))
+//@ pred K9() = forall(n * node, trig(n.up), imp(in(n, astNodes) && n.up != nil, in(n.up, astNodes) && par(n.up) == n && lft(n.up) == nil))
+//@ pred K10() = forall(n * node, trig(n.next), imp(in(n, astNodes) && n.next != nil, in(n.next, astNodes) && par(n) != nil && par(n.next) == par(n) && lft(n.next) == n))
+//@ pred K11(ts []token, k int) = forall(n * node, j, imp(in(n, astNodes) && par(n) != nil && ix(n) < j && j < ix(par(n)) && nonEmpty(ts[j]), !inside(n.token, ts[j])))
+//@      && forall(n * node, j, imp(in(n, astNodes) && par(n) == nil && ix(n) < j && j < k && nonEmpty(ts[j]), !inside(n.token, ts[j])))
+
+// Subtree intervals: L1/L2 define lo, L3/L4 say that the index intervals of consecutive children are adjacent (no node index
+// falls between them, nor between the last child and the parent), L5 says the same for neighbours on the stack.
+//@ pred L1() = forall(n * node, imp(in(n, astNodes), 0 <= lo(n) && lo(n) <= ix(n)))
+//@ pred L2() = forall(n * node, imp(in(n, astNodes), lo(n) == ite(n.up == nil, ix(n), lo(n.up))))
+//@ pred L3() = forall(n * node, m * node, trig(n.next, ix(m)), imp(in(n, astNodes) && in(m, astNodes) && n.next != nil, !(ix(n) < ix(m) && ix(m) < lo(n.next))))
+//@      && forall(n * node, trig(n.next), imp(in(n, astNodes) && n.next != nil, ix(n) < lo(n.next)))
+//@ pred L4() = forall(n * node, m * node, trig(n.next, ix(m)), imp(in(n, astNodes) && in(m, astNodes) && par(n) != nil && n.next == nil, !(ix(n) < ix(m) && ix(m) < ix(par(n)))))
+//@ pred L5(c *node) = forall(n * node, m * node, trig(el(n).down, ix(m)), imp(onS(n, c) && in(m, astNodes) && el(n).down != nil, !(ix(el(n).down.node) < ix(m) && ix(m) < lo(n))))
+//@      && forall(n * node, m * node, trig(el(n).down, ix(m)), imp(onS(n, c) && in(m, astNodes) && el(n).down == nil, lo(n) <= ix(m)))
+//@      && forall(n * node, trig(el(n).down), imp(onS(n, c) && el(n).down != nil, ix(el(n).down.node) < lo(n)))
+
+//@ pred wellNested(ts []token) = forall(j, imp(0 <= j && j < len(ts), ts[j].begin <= ts[j].end))
+//@      && forall(i, j, imp(0 <= i && i < j && j < len(ts) && nonEmpty(ts[i]) && nonEmpty(ts[j]), ts[i].end <= ts[j].begin || inside(ts[i], ts[j])))
+
+//@ func tokens.AST
+//@   requires soff(t.tree) == 0 && wellNested(t.tree)
+//@   ensures[C05] result == nil || (in(result, astNodes) && par(result) == nil)
+//@   ensures[C05] (result == nil) == forall(j, imp(0 <= j && j < len(t.tree), !nonEmpty(t.tree[j])))
+//@   ensures[C05] K1(t.tree, len(t.tree)) && K2(t.tree, len(t.tree))
+//@   ensures[C05] K6() && K7() && K8() && K9() && K10() && K11(t.tree, len(t.tree))
+//@   ensures[C05] forall(n * node, imp(in(n, astNodes) && par(n) == nil, n.next == nil && lft(n) == nil && (n == result || n.end <= result.begin)))
+//@   ensures[C05] forall(i, j, imp(0 <= i && i < j && j < len(t.tree) && nonEmpty(t.tree[i]) && nonEmpty(t.tree[j]) && inside(t.tree[i], t.tree[j])
+//@                  && forall(m, imp(i < m && m < j && nonEmpty(t.tree[m]), !inside(t.tree[i], t.tree[m]))), par(at(astN, i, node)) == at(astN, j)))
+//@   ensures[C05] L1() && L2() && L3() && L4() && result == astRoot
+//@   ensures[C05] forall(m * node, imp(in(m, astNodes), ix(m) <= ix(result) && (lo(result) <= ix(m) || m.end <= result.begin)))
+//@   ensures t.tree == old(t.tree)
+//@   modifies node.up, node.next, node.token, element.node, element.down at r where false
+//@   modifies var astNodes, astN, astI, astP, astL, astEl, astLo, astRoot
+//@   ghost entry : astNodes = emptyset()
+//@   ghost entry : astRoot = nil
+//@   ghost after "node := &node[U]{token: token}" : astNodes = add(astNodes, node)
+//@   ghost after "node := &node[U]{token: token}" : astN = put(astN, idx() - 1, node)
+//@   ghost after "node := &node[U]{token: token}" : astI = put(astI, node, idx() - 1)
+//@   ghost after "node := &node[U]{token: token}" : astP = put(astP, node, nil)
+//@   ghost after "node := &node[U]{token: token}" : astL = put(astL, node, nil)
+//@   ghost after "node := &node[U]{token: token}" : astLo = put(astLo, node, idx() - 1)
+//@   ghost after "stack.node.next = node.up" : astL = ite(node.up != nil, put(astL, node.up, stack.node), astL)
+//@   ghost after "node.up = stack.node" : astP = put(astP, node.up, node)
+//@   ghost after "node.up = stack.node" : astLo = put(astLo, node, lo(node.up))
+//@   ghost after "stack = &element{node: node, down: stack}" : astEl = put(astEl, node, stack)
+//@   ghost after "stack = &element{node: node, down: stack}" : astRoot = node
+//@   loop 0 invariant idx() >= 0 && idx() <= len(tokenSlice) && tokenSlice == t.tree && sameNode() && sameElem()
+//@   loop 0 invariant K1(tokenSlice, idx()) && K2(tokenSlice, idx()) && K3(nil) && K4a(nil) && K4b(nil) && K4c(nil) && K4d(nil) && K5(nil)
+//@   loop 0 invariant K6() && K7() && K8() && K9() && K10() && K11(tokenSlice, idx())
+//@   loop 0 invariant imp(stack == nil, forall(n * node, !in(n, astNodes)) && astRoot == nil)
+//@   loop 0 invariant imp(stack != nil, astRoot == stack.node && forall(m * node, imp(in(m, astNodes), ix(m) <= ix(stack.node))))
+//@   loop 0 invariant L1() && L2() && L3() && L4() && L5(nil)
+//@   loop 0 invariant forall(m * node, imp(in(m, astNodes) && stack != nil, lo(stack.node) <= ix(m) || m.end <= stack.node.begin))
+//@   loop 1 invariant idx() >= 1 && idx() <= len(tokenSlice) && tokenSlice == t.tree && sameNode() && sameElem()
+//@   loop 1 invariant in(node, astNodes) && par(node) == nil && lft(node) == nil && ix(node) == idx() - 1 && node.next == nil
+//@   loop 1 invariant node.token == token && token == tokenSlice[idx() - 1] && token.begin != token.end
+//@   loop 1 invariant forall(m * node, imp(onS(m, node) && node.up != nil, m.end <= node.up.begin))
+//@   loop 1 invariant K1(tokenSlice, idx()) && K2(tokenSlice, idx()) && K3(node) && K4a(node) && K4b(node) && K4c(node) && K4d(node) && K5(node)
+//@   loop 1 invariant K6() && K7() && K8() && K9() && K10() && K11(tokenSlice, idx() - 1)
+//@   loop 1 invariant L1() && L2() && L3() && L4() && L5(node)
+//@   loop 1 invariant forall(m * node, imp(in(m, astNodes) && stack != nil, !(ix(stack.node) < ix(m) && ix(m) < lo(node))))
+//@   loop 1 invariant forall(m * node, imp(in(m, astNodes) && stack == nil, lo(node) <= ix(m)))
+//@   loop 1 invariant imp(stack != nil, ix(stack.node) < lo(node))
+//@   loop 1 decreases ite(stack == nil, 0, ix(stack.node) + 1)
+
+// ---------------------------------------------------------------------------------------------
+// C05, printing. Output model: the ghost log outW/outFmt/outA/outB (outN records) receives one record (writer, format,
+// first operand, second operand) per fmt.Fprint / fmt.Fprintf call (assumed contracts of these two functions, declared in
+// govc's loadRuntimeUnit). Two ghost maps written by the ghost statements in printFunc tie records to nodes:
+// outNode[k] = the node for which record k was printed, outLine[m] = the record printed for node m.
+//   indentLine(k): record k is one indentation blank written by fmt.Fprint(w, " ")   (empty format)
+//   nodeLine(k):   record k is fmt.Fprintf(w, <the format selected by pretty>, rule name of the node, strconv.Quote of the
+//                  exact input substring string([]rune(buffer)[begin:end]) the node spans)
+//   covers(from, l, h): the node lines among the records from .. outN-1 are in one-to-one correspondence with the nodes
+//                  whose token index lies in [l, h): every such node has exactly one line, and there is no other node line.
+//                  With l = lo(n), h = ix(n) + 1 these are the nodes of the subtree of n.
+
+//@ ghostvar outN int
+//@ ghostvar outW map
+//@ ghostvar outFmt strmap
+//@ ghostvar outA strmap
+//@ ghostvar outB strmap
+//@ ghostvar outNode map
+//@ ghostvar outLine map
+//@ specfunc quoteOf(s string) string
+
+//@ pred PT(buffer string) = forall(m * node, imp(in(m, astNodes), m != nil && m.begin <= m.end && m.end <= rlen(buffer) && m.pegRule < len(rul3s)))
+//@ pred INJ() = forall(n * node, imp(in(n, astNodes), at(astN, ix(n)) == n))
+//@ pred shape() = INJ() && K6() && K9() && K10() && L1() && L2() && L3() && L4()
+//@ pred hiOf(n *node) = ite(par(n) != nil, ix(par(n)), ix(n) + 1)
+//@ pred isNL(k int) = at(outFmt, k) != ""
+//@ pred indentLine(k int, w int) = at(outW, k) == w && at(outFmt, k) == "" && at(outA, k) == " " && at(outB, k) == ""
+//@ pred nodeLine(k int, w int, pretty bool, buffer string) = at(outW, k) == w && in(at(outNode, k), astNodes)
+//@      && at(outFmt, k) == ite(pretty, "\x1B[36m%v\x1B[m %v\n", "%v %v\n")
+//@      && at(outA, k) == rul3s[at(outNode, k, node).pegRule]
+//@      && at(outB, k) == quoteOf(substr(buffer, at(outNode, k, node).begin, at(outNode, k, node).end))
+//@ pred newLines(from int, w int, pretty bool, buffer string) = from <= outN
+//@      && forall(k, imp(from <= k && k < outN, indentLine(k, w) || nodeLine(k, w, pretty, buffer)))
+//@ pred oldLines(from int) = forall(k, imp(k < from, at(outW, k) == old(at(outW, k)))) && forall(k, imp(k < from, at(outFmt, k) == old(at(outFmt, k))))
+//@      && forall(k, imp(k < from, at(outA, k) == old(at(outA, k)))) && forall(k, imp(k < from, at(outB, k) == old(at(outB, k))))
+//@      && forall(k, imp(k < from, at(outNode, k) == old(at(outNode, k))))
+//@ pred covers(from int, l int, h int) = forall(m * node, imp(in(m, astNodes) && l <= ix(m) && ix(m) < h,
+//@            from <= at(outLine, m) && at(outLine, m) < outN && at(outNode, at(outLine, m)) == m && isNL(at(outLine, m))))
+//@      && forall(k, imp(from <= k && k < outN && isNL(k), l <= ix(at(outNode, k)) && ix(at(outNode, k)) < h && at(outLine, at(outNode, k)) == k))
+//@ pred keepLine(l int, h int) = forall(m * node, imp(!(l <= ix(m) && ix(m) < h), at(outLine, m) == old(at(outLine, m))))
+//@ pred printed(n *node, from int) = imp(n != nil, covers(from, lo(n), hiOf(n)) && keepLine(lo(n), hiOf(n)))
+//@      && imp(n == nil, outN == from && forall(m * node, at(outLine, m) == old(at(outLine, m))))
+
+//@ closure print.printFunc
+//@   requires (n == nil || in(n, astNodes)) && PT(buffer) && shape()
+//@   ensures[C05] newLines(old(outN), w, pretty, buffer) && oldLines(old(outN))
+//@   ensures[C05] printed(n, old(outN))
+//@   modifies var outN, outW, outFmt, outA, outB, outNode, outLine
+//@   modifies Elems.Int at b where false
+//@   ghost after "quote := strconv.Quote(string([]rune(buffer)[n.begin:n.end]))" : outNode = put(outNode, outN, n)
+//@   ghost after "quote := strconv.Quote(string([]rune(buffer)[n.begin:n.end]))" : outLine = put(outLine, n, outN)
+//@   loop 0 invariant (n == nil || in(n, astNodes)) && frameOld("Elems.Int")
+//@   loop 0 invariant newLines(old(outN), w, pretty, buffer) && oldLines(old(outN))
+//@   loop 0 invariant imp(old(n) == nil, n == nil && outN == old(outN) && forall(m * node, at(outLine, m) == old(at(outLine, m))))
+//@   loop 0 invariant imp(n != nil, par(n) == par(old(n)) && (n == old(n) || par(n) != nil) && lo(old(n)) <= lo(n))
+//@   loop 0 invariant imp(old(n) != nil, covers(old(outN), lo(old(n)), ite(n != nil, lo(n), hiOf(old(n)))) && keepLine(lo(old(n)), ite(n != nil, lo(n), hiOf(old(n)))))
+//@   loop 1 invariant idx() >= 0 && n == entry(n) && n != nil && in(n, astNodes) && frameOld("Elems.Int")
+//@   loop 1 invariant newLines(old(outN), w, pretty, buffer) && oldLines(old(outN))
+//@   loop 1 invariant par(n) == par(old(n)) && (n == old(n) || par(n) != nil) && lo(old(n)) <= lo(n)
+//@   loop 1 invariant covers(old(outN), lo(old(n)), lo(n)) && keepLine(lo(old(n)), lo(n))
+
+//@ func node.print
+//@   requires (n == nil || in(n, astNodes)) && PT(buffer) && shape()
+//@   ensures[C05] newLines(old(outN), w, pretty, buffer) && oldLines(old(outN)) && printed(n, old(outN))
+//@   modifies var outN, outW, outFmt, outA, outB, outNode, outLine
+//@   modifies Elems.Int at b where false
+
+//@ func node.Print
+//@   requires (n == nil || in(n, astNodes)) && PT(buffer) && shape()
+//@   ensures[C05] newLines(old(outN), w, false, buffer) && oldLines(old(outN)) && printed(n, old(outN))
+//@   modifies var outN, outW, outFmt, outA, outB, outNode, outLine
+//@   modifies Elems.Int at b where false
+
+//@ func node.PrettyPrint
+//@   requires (n == nil || in(n, astNodes)) && PT(buffer) && shape()
+//@   ensures[C05] newLines(old(outN), w, true, buffer) && oldLines(old(outN)) && printed(n, old(outN))
+//@   modifies var outN, outW, outFmt, outA, outB, outNode, outLine
+//@   modifies Elems.Int at b where false
+
+// The printers of a token list / of the parser: build the tree (AST) and print it. treeOK restates what AST guarantees about
+// the tree (its nodes are astNodes, its root is astRoot); tokensOK is what printing needs from the tokens.
+// printedTree(from): the node lines among the new records correspond one-to-one to the nodes of the subtree of the root;
+// by rootOK every other node of astNodes lies entirely before the root's span (there is none when the root token spans
+// all tokens, as the token of the start rule of a successful parse does).
+//@ pred root() = as(astRoot, node)
+//@ pred rootOK() = imp(astRoot == nil, forall(m * node, !in(m, astNodes)))
+//@      && imp(astRoot != nil, in(root(), astNodes) && par(root()) == nil)
+//@      && forall(m * node, imp(in(m, astNodes) && astRoot != nil, ix(m) <= ix(root()) && (lo(root()) <= ix(m) || m.end <= root().begin)))
+//@ pred treeOK(ts []token) = K1(ts, len(ts)) && K2(ts, len(ts)) && K6() && K7() && K8() && K9() && K10() && K11(ts, len(ts)) && L1() && L2() && L3() && L4() && rootOK()
+//@ pred tokensOK(ts []token, buffer string) = forall(j, imp(0 <= j && j < len(ts), ts[j].end <= rlen(buffer) && ts[j].pegRule < len(rul3s)))
+//@ pred printedTree(from int) = imp(astRoot != nil, covers(from, lo(root()), ix(root()) + 1)) && imp(astRoot == nil, outN == from)
+
+//@ func tokens.PrintSyntaxTree
+//@   requires soff(t.tree) == 0 && wellNested(t.tree) && tokensOK(t.tree, buffer)
+//@   ensures[C05] treeOK(t.tree) && newLines(old(outN), os.Stdout, false, buffer) && oldLines(old(outN)) && printedTree(old(outN))
+//@   ensures t.tree == old(t.tree)
+//@   modifies var astNodes, astN, astI, astP, astL, astEl, astLo, astRoot, outN, outW, outFmt, outA, outB, outNode, outLine
+//@   modifies node.up, node.next, node.token, element.node, element.down, Elems.Int at r where false
+
+//@ func tokens.PrettyPrintSyntaxTree
+//@   requires soff(t.tree) == 0 && wellNested(t.tree) && tokensOK(t.tree, buffer)
+//@   ensures[C05] treeOK(t.tree) && newLines(old(outN), os.Stdout, true, buffer) && oldLines(old(outN)) && printedTree(old(outN))
+//@   ensures t.tree == old(t.tree)
+//@   modifies var astNodes, astN, astI, astP, astL, astEl, astLo, astRoot, outN, outW, outFmt, outA, outB, outNode, outLine
+//@   modifies node.up, node.next, node.token, element.node, element.down, Elems.Int at r where false
+
+//@ func tokens.WriteSyntaxTree
+//@   requires soff(t.tree) == 0 && wellNested(t.tree) && tokensOK(t.tree, buffer)
+//@   ensures[C05] treeOK(t.tree) && newLines(old(outN), w, false, buffer) && oldLines(old(outN)) && printedTree(old(outN))
+//@   ensures t.tree == old(t.tree)
+//@   modifies var astNodes, astN, astI, astP, astL, astEl, astLo, astRoot, outN, outW, outFmt, outA, outB, outNode, outLine
+//@   modifies node.up, node.next, node.token, element.node, element.down, Elems.Int at r where false
+
+//@ func $T.PrintSyntaxTree
+//@   requires p != nil && soff(p.tokens.tree) == 0 && wellNested(p.tokens.tree) && tokensOK(p.tokens.tree, p.Buffer)
+//@   ensures[C05] treeOK(p.tokens.tree) && newLines(old(outN), os.Stdout, p.Pretty, p.Buffer) && oldLines(old(outN)) && printedTree(old(outN))
+//@   modifies var astNodes, astN, astI, astP, astL, astEl, astLo, astRoot, outN, outW, outFmt, outA, outB, outNode, outLine
+//@   modifies node.up, node.next, node.token, element.node, element.down, Elems.Int at r where false
+
+//@ func $T.WriteSyntaxTree
+//@   requires p != nil && soff(p.tokens.tree) == 0 && wellNested(p.tokens.tree) && tokensOK(p.tokens.tree, p.Buffer)
+//@   ensures[C05] treeOK(p.tokens.tree) && newLines(old(outN), w, false, p.Buffer) && oldLines(old(outN)) && printedTree(old(outN))
+//@   modifies var astNodes, astN, astI, astP, astL, astEl, astLo, astRoot, outN, outW, outFmt, outA, outB, outNode, outLine
+//@   modifies node.up, node.next, node.token, element.node, element.down, Elems.Int at r where false
+
+// SprintSyntaxTree prints into a local bytes.Buffer: all new records have that (fresh) writer, named here as the writer of
+// the first new record. The returned string is b.String() (external, unconstrained).
+//@ func $T.SprintSyntaxTree
+//@   requires p != nil && soff(p.tokens.tree) == 0 && wellNested(p.tokens.tree) && tokensOK(p.tokens.tree, p.Buffer)
+//@   ensures[C05] treeOK(p.tokens.tree) && newLines(old(outN), at(outW, old(outN)), false, p.Buffer) && oldLines(old(outN)) && printedTree(old(outN))
+//@   modifies var astNodes, astN, astI, astP, astL, astEl, astLo, astRoot, outN, outW, outFmt, outA, outB, outNode, outLine
+//@   modifies node.up, node.next, node.token, element.node, element.down, Elems.Int at r where false
+//@   modifies Buffer.buf, Buffer.off, Buffer.lastRead at r where false  -- the zero-initialised local bytes.Buffer (fresh object)
